@@ -477,7 +477,6 @@ Section Main.
   Hypothesis Hfloat : forall c x, G (ROk (lf_float L c x)).
   Hypothesis Hquoted : forall s, G (ROk (quoted L f s)).
   Hypothesis Hb64 : forall b, G (ROk (q :: lf_base64 L b ++ [q])).
-  Hypothesis Hempty : G (ROk [q; q]).
   Hypothesis Htime : forall x,
     G (match f with
        | FJS => match lf_time_js L x with Some b => ROk b | None => RPanic end
@@ -487,7 +486,7 @@ Section Main.
   Hypothesis Harray : forall rs, Forall G rs -> G (array_lit rs).
   Hypothesis Hobject : forall ms, Forall (fun m : bytes * result => G (snd m)) ms -> G (object_lit L f ms).
 
-  Ltac gleaf := solve [apply Hnull | apply Hbool | apply HZ | apply HN | apply Hfloat | apply Hquoted | apply Hb64 | apply Hempty | apply Htrusted].
+  Ltac gleaf := solve [apply Hnull | apply Hbool | apply HZ | apply HN | apply Hfloat | apply Hquoted | apply Hb64 | apply Htrusted].
 
   Definition P (n : nat) : Prop :=
     forall v env t, (vsize v < n)%nat ->
